@@ -33,6 +33,8 @@ def run_check(prop, tier, nruns=None, config=None, quiet=False):
     size = m.TIERS[tier].get("chunk", 25)
     tasks = [{"seed": seed, "lo": lo, "hi": hi, "tier": tier, "config": config} for lo, hi in chunks(n, size)]
     cap = float(os.environ.get("VERIF_WALL_CAP", m.TIERS[tier].get("wall_cap", 900)))
+    # soft budget: half of the hard cap; on 16 idle cores the tiers need a fraction of it
+    runner.set_time_budget(float(os.environ.get("VERIF_TIME_BUDGET", cap / 2)))
     print(f"[{prop}] tier={tier} VERIF_SEED={seed} runs={n} jobs={runner.jobs()} repo={lib.REPO}", flush=True)
     regress = replay_regressions(prop, m)
     aggs = runner.pmap(m.batch, tasks, wall_cap=cap)
@@ -49,6 +51,8 @@ def run_check(prop, tier, nruns=None, config=None, quiet=False):
     cov, assumptions, extra = m.evidence(agg, tier, seed, wall)
     cov["stored_regression_histories_of_repaired_defects_replayed"] = regress["files"]
     cov["stored_regression_histories_reproduced"] = len(regress["reproduced"])
+    cov["runs_requested"] = n
+    cov["stopped_early_by_time_budget"] = bool(runner.past_deadline() and agg["runs"] < n)
     path = runner.write_evidence(prop, tier, seed, cov, wall, len(rep.new), assumptions, extra)
     status = rep.finish()
     if agg.get("harness"):
